@@ -1,7 +1,227 @@
-(* C03 - stub, replaced below *)
-From Coq Require Import ZArith Bool List Reals.
-From Hy Require Import Base.Num Gen.ConstsC03 Model.Crps.
+(* C03 - the CRPS returned by hydrodiy.stat.metrics.crps equals its definition
+   and its decomposition is exact.
+   Statements only; every proof is `exact <lemma of Proofs/Crps*.v>`.
+
+   Vocabulary (Model/Crps.v, Proofs/Crps*.v):
+     crps N rows            the wrapper + kernel (row filter, sort, bins, final loop),
+                            rows = list of (observation, ensemble members)
+     wfrows m rows          n >= 1 forecasts, each with the same number m >= 1 of members
+     absdev y e             sum_k |x_k - y|
+     dsum e                 sum_k sum_l |x_l - x_k|
+     crps_def_row (y,e)     absdev y e / m - dsum e / (2 m^2)  =  E|X-y| - 1/2 E|X-X'|
+     crps_def rows          mean over the forecasts of crps_def_row
+     climatology rows       every forecast replaced by the whole set of observations
+   All theorems are over the real-number instance RR and hold for EVERY n >= 1,
+   EVERY m >= 1, every tie pattern; those about missing observations hold for
+   every arithmetic instance (binary64 included). *)
+From Coq Require Import ZArith Bool List Reals Permutation String.
+From Hy Require Import Base.Num Gen.ConstsC03 Model.Crps
+  Proofs.CrpsSort Proofs.CrpsProofs Proofs.CrpsDefProofs Proofs.CrpsInvProofs
+  Proofs.CrpsMain Proofs.CrpsWitness Proofs.CrpsHom.
 Import ListNotations.
-Example C03_stub : CRPS_IS_SORTED = 0%Z.
-Proof. reflexivity. Qed.
-Print Assumptions C03_stub.
+Open Scope R_scope.
+
+(* well-formed input never raises (in particular the kernel's EDOM test never fires) *)
+Theorem C03_defined : forall m rows,
+  wfrows m rows -> exists out, crps RR rows = Some out.
+Proof. exact main_defined. Qed.
+Print Assumptions C03_defined.
+
+(* the hypotheses are satisfiable: three forecasts, three members, ties between
+   members and between a member and the observation *)
+Example C03_nonvacuous : wfrows 3 [(1, [2; 1; 1]); (0, [1; 3; 2]); (5, [4; 4; 0])].
+Proof. exact example_wf. Qed.
+Print Assumptions C03_nonvacuous.
+
+(* crps = mean over forecasts of E|X-y| - 0.5 E|X-X'| (every ensemble size) *)
+Theorem C03_crps_is_definition : forall m rows out,
+  wfrows m rows -> crps RR rows = Some out ->
+  o_crps out = crps_def rows.
+Proof. exact main_crps_is_definition. Qed.
+Print Assumptions C03_crps_is_definition.
+
+(* one member: the mean absolute error *)
+Theorem C03_single_member_is_mae : forall rows out,
+  wfrows 1 rows -> crps RR rows = Some out ->
+  o_crps out = Rsum (map (fun r => Rabs (hd 0 (snd r) - fst r)) rows) / INR (List.length rows).
+Proof. exact main_single_member. Qed.
+Print Assumptions C03_single_member_is_mae.
+
+Example C03_single_member_nonvacuous : wfrows 1 [(1, [3]); (2, [2])].
+Proof. exact example_single_wf. Qed.
+Print Assumptions C03_single_member_nonvacuous.
+
+(* the decomposition *)
+Theorem C03_crps_reli_pot : forall m rows out,
+  wfrows m rows -> crps RR rows = Some out ->
+  o_crps out = o_reli out + o_pot out.
+Proof. exact main_crps_reli_pot. Qed.
+Print Assumptions C03_crps_reli_pot.
+
+Theorem C03_resolution : forall m rows out,
+  wfrows m rows -> crps RR rows = Some out ->
+  o_resol out = o_unc out - o_pot out.
+Proof. exact main_resolution. Qed.
+Print Assumptions C03_resolution.
+
+Theorem C03_nonneg : forall m rows out,
+  wfrows m rows -> crps RR rows = Some out ->
+  0 <= o_reli out /\ 0 <= o_pot out /\ 0 <= o_unc out.
+Proof. exact main_nonneg. Qed.
+Print Assumptions C03_nonneg.
+
+Theorem C03_crps_nonneg : forall m rows out,
+  wfrows m rows -> crps RR rows = Some out -> 0 <= o_crps out.
+Proof. exact main_crps_nonneg. Qed.
+Print Assumptions C03_crps_nonneg.
+
+(* the identity holds bin by bin in the (m+1)-row table, each row with g > 0
+   contributing non-negative reliability and potential terms *)
+Theorem C03_table_rows : forall m rows out,
+  wfrows m rows -> crps RR rows = Some out ->
+  List.length (o_table out) = S m /\
+  Forall (fun r => crps_term RR r = g_r r + g_c r /\ 0 <= g_r r /\ 0 <= g_c r) (o_table out).
+Proof. exact main_table_rows. Qed.
+Print Assumptions C03_table_rows.
+
+(* in every table row that counts (g > 0) the "rank" column is a frequency in
+   [0,1]; the interior rows satisfy Hersbach's a = g (1 - o), b = g o *)
+Theorem C03_table_frequencies : forall m rows out,
+  wfrows m rows -> crps RR rows = Some out ->
+  Forall (fun r => 0 < t_g r -> 0 <= t_o r <= 1) (o_table out) /\
+  Forall (fun r => 0 < t_g r -> t_a r = t_g r * (1 - t_o r) /\ t_b r = t_g r * t_o r)
+         (removelast (tl (o_table out))).
+Proof. exact main_table_frequencies. Qed.
+Print Assumptions C03_table_frequencies.
+
+(* uncertainty = CRPS of the observed climatology: by the definition ... *)
+Theorem C03_uncertainty_is_climatology_crps : forall m rows out,
+  wfrows m rows -> crps RR rows = Some out ->
+  o_unc out = crps_def (climatology rows).
+Proof. exact main_uncertainty_climatology. Qed.
+Print Assumptions C03_uncertainty_is_climatology_crps.
+
+(* ... and as what the same code returns for the climatological ensemble *)
+Theorem C03_uncertainty_is_kernel_crps_of_climatology : forall m rows out,
+  wfrows m rows -> crps RR rows = Some out ->
+  exists outc, crps RR (climatology rows) = Some outc /\ o_unc out = o_crps outc.
+Proof. exact main_uncertainty_kernel. Qed.
+Print Assumptions C03_uncertainty_is_kernel_crps_of_climatology.
+
+(* order of the members of each forecast: the whole output (5 numbers, table) is unchanged *)
+Theorem C03_member_order : forall m rows rows',
+  wfrows m rows ->
+  Forall2 (fun r r' => fst r = fst r' /\ Permutation (snd r) (snd r')) rows rows' ->
+  crps RR rows = crps RR rows'.
+Proof. exact (crps_member_order true). Qed.
+Print Assumptions C03_member_order.
+
+Example C03_member_order_nonvacuous :
+  Forall2 (fun r r' : R * list R => fst r = fst r' /\ Permutation (snd r) (snd r'))
+    [(1, [2; 1; 1]); (0, [1; 3; 2]); (5, [4; 4; 0])]
+    [(1, [1; 2; 1]); (0, [3; 2; 1]); (5, [0; 4; 4])].
+Proof. exact example_members. Qed.
+Print Assumptions C03_member_order_nonvacuous.
+
+(* order of the forecasts *)
+Theorem C03_forecast_order : forall m rows rows',
+  wfrows m rows -> Permutation rows rows' -> crps RR rows = crps RR rows'.
+Proof. exact (crps_forecast_order true). Qed.
+Print Assumptions C03_forecast_order.
+
+Example C03_forecast_order_nonvacuous :
+  Permutation [(1, [2; 1; 1]); (0, [1; 3; 2]); (5, [4; 4; 0])]
+              [(5, [4; 4; 0]); (1, [2; 1; 1]); (0, [1; 3; 2])].
+Proof. exact example_perm. Qed.
+Print Assumptions C03_forecast_order_nonvacuous.
+
+(* a constant added to observations and members *)
+Theorem C03_shift : forall m rows d,
+  wfrows m rows ->
+  crps RR (map (fun r => (fst r + d, map (fun x => x + d) (snd r))) rows) = crps RR rows.
+Proof. intros m rows d; exact (crps_shift true m rows d). Qed.
+Print Assumptions C03_shift.
+
+(* a positive factor: the five numbers and the columns a, b, g, reliability,
+   potential of the table are multiplied by it; frequencies and ranks are unchanged *)
+Theorem C03_scale : forall m rows k,
+  wfrows m rows -> 0 < k ->
+  crps RR (map (fun r => (k * fst r, map (fun x => k * x) (snd r))) rows) =
+  option_map (fun o =>
+    mkCrout (k * o_crps o) (k * o_reli o) (k * o_resol o) (k * o_unc o) (k * o_pot o)
+            (map (fun r => mkTrow (t_p r) (k * t_a r) (k * t_b r) (k * t_g r) (t_o r)
+                                  (k * t_r r) (k * t_c r)) (o_table o)))
+    (crps RR rows).
+Proof. intros m rows k; exact (crps_scale true m rows k). Qed.
+Print Assumptions C03_scale.
+
+(* forecasts whose observation is missing are ignored: every arithmetic instance *)
+Theorem C03_missing_observation_ignored : forall {T} (N : NumOps T) rows1 y e rows2,
+  nisnan N y = true ->
+  crps N (rows1 ++ (y, e) :: rows2) = crps N (rows1 ++ rows2).
+Proof. intros T N; exact (crps_missing_obs N true). Qed.
+Print Assumptions C03_missing_observation_ignored.
+
+Theorem C03_only_valid_rows_count : forall {T} (N : NumOps T) rows,
+  crps N rows = crps N (filter (row_valid N) rows).
+Proof. intros T N; exact (crps_filter N true). Qed.
+Print Assumptions C03_only_valid_rows_count.
+
+(* With an explicit missing value ([RN]: [None] plays NaN, arithmetic propagates
+   it, comparisons with it are false): on data whose observations may be missing
+   the code returns exactly the real-number result on the forecasts that have an
+   observation ([with_obs] drops the others; [hout Some] injects every number of
+   the output), so every theorem above applies to it. *)
+Theorem C03_missing_observations_are_dropped : forall rows : list (option R * list R),
+  crps RN (map (fun r => (fst r, map Some (snd r))) rows) =
+  option_map (hout Some) (crps RR (with_obs rows)).
+Proof. exact (crps_with_missing_obs true). Qed.
+Print Assumptions C03_missing_observations_are_dropped.
+
+(* error branch: no observation at all raises *)
+Theorem C03_no_valid_data : forall {T} (N : NumOps T) rows,
+  Forall (fun r => nisnan N (fst r) = true) rows -> crps N rows = None.
+Proof. intros T N; exact (crps_all_missing N true). Qed.
+Print Assumptions C03_no_valid_data.
+
+(* the constants the model depends on, re-extracted from the source on every run:
+   labels of the returned Series/DataFrame, table width in metrics.py and in
+   c_crps.c, use_weights = 0 and is_sorted = 0 passed by the wrapper *)
+Theorem C03_source_constants :
+  CRPS_DECOMPOS_NAMES = ["crps"; "reliability"; "resolution"; "uncertainty"; "potential"]%string /\
+  CRPS_TABLE_NAMES = ["freq"; "a"; "b"; "g"; "rank"; "reliability"; "crps_potential"]%string /\
+  CRPS_TABLE_NCOL_PY = CRPS_TABLE_NCOL_C /\ CRPS_TABLE_NCOL_C = 7%Z /\
+  (CRPS_DECOMPOS_MAXIDX_C < CRPS_NDECOMPOS_PY)%Z /\
+  CRPS_USE_WEIGHTS = 0%Z /\ CRPS_IS_SORTED = 0%Z.
+Proof. exact main_labels. Qed.
+Print Assumptions C03_source_constants.
+
+(* Over the reals the kernel of the pinned commit and the repaired kernel agree
+   (the outlier frequencies never exceed 1 there) ... *)
+Theorem C03_pinned_same_over_reals : forall m rows,
+  wfrows m rows -> crps_pinned RR rows = crps RR rows.
+Proof. exact main_pinned_same_over_R. Qed.
+Print Assumptions C03_pinned_same_over_reals.
+
+(* ... but in binary64 the pinned kernel returns a negative potential CRPS
+   (nine forecasts, every observation below its ensemble: nine copies of 1/9
+   add up to 1 + 2^-52).  Witness computed on the F64 instance of the model;
+   the harness replays it on the real code. *)
+Theorem C03_pinned_potential_nonneg_binary64_refuted :
+  exists rows : list (PrimFloat.float * list PrimFloat.float),
+    match crps_pinned F64 rows with
+    | Some out => PrimFloat.ltb (o_pot out) PrimFloat.zero
+    | None => false
+    end = true.
+Proof. exact pinned_potential_negative. Qed.
+Print Assumptions C03_pinned_potential_nonneg_binary64_refuted.
+
+(* the repaired kernel on the same input *)
+Example C03_repaired_on_witness :
+  (* witness_rows = repeat (0, [1; 2]) 9 *)
+  match crps F64 witness_rows with
+  | Some out => PrimFloat.leb PrimFloat.zero (o_pot out)
+  | None => false
+  end = true.
+Proof. exact repaired_potential_on_witness. Qed.
+Print Assumptions C03_repaired_on_witness.
